@@ -251,11 +251,34 @@ func c54FirstDiff(a, b string) string {
 	return fmt.Sprintf("at byte %d:\n    in : …%s…\n    out: …%s…", i, cut(a), cut(b))
 }
 
+// c54LastElem is the name a file uses for an imported package that nobody can
+// look up: the last path element, or, when that element is a version (v0, v1,
+// v2, ... — "v" followed by a decimal number without leading zero), the
+// element before it (Gno's rule that the package at gno.land/r/foo/v2 is named
+// foo). Written from that rule, not from the formatter's code.
 func c54LastElem(path string) string {
-	if i := strings.LastIndex(path, "/"); i >= 0 {
-		return path[i+1:]
+	elems := strings.Split(path, "/")
+	last := elems[len(elems)-1]
+	if len(elems) >= 2 && c54IsVersionElem(last) {
+		return elems[len(elems)-2]
 	}
-	return path
+	return last
+}
+
+func c54IsVersionElem(s string) bool {
+	if len(s) < 2 || s[0] != 'v' {
+		return false
+	}
+	d := s[1:]
+	if len(d) > 1 && d[0] == '0' {
+		return false
+	}
+	for i := 0; i < len(d); i++ {
+		if d[i] < '0' || d[i] > '9' {
+			return false
+		}
+	}
+	return true
 }
 
 func c54ImportSet(is []c54Import) map[c54Import]int {
